@@ -76,17 +76,21 @@ pub struct ReplSlice<T> {
     pub my_id: u32,
     pub _t: std::marker::PhantomData<T>,
 }
-/// Leader log model: entries 1..=last, all present, term 1; range reads return exactly the requested entries.
+/// Leader log model: entries 1..=last_before (term 1) plus the `nnew` entries the leader has just appended
+/// (term 2) -- prepare_batch_requests writes the new entries to the log BEFORE the per-peer selection runs, so a
+/// range read reaching past `last_before` does return them.  Range reads return exactly the requested entries.
 pub struct RangeLog {
-    pub last: u64,
+    pub last_before: u64,
+    pub nnew: u64,
     pub asked: SCell<u32>,
 }
 impl RLog for RangeLog {
     fn get_entries_range(&self, range: std::ops::RangeInclusive<u64>) -> Result<Vec<Entry>> {
         *self.asked.m() += 1;
         let a = *range.start();
-        let b = (*range.end()).min(self.last);
-        let mk = |i: u64| Entry { index: i, term: 1, payload: 0 };
+        let b = (*range.end()).min(self.last_before + self.nnew);
+        let lb = self.last_before;
+        let mk = |i: u64| if i > lb { Entry { index: i, term: 2, payload: 1 } } else { Entry { index: i, term: 1, payload: 0 } };
         if a == 0 || a > b {
             return Ok(Vec::new());
         }
